@@ -136,7 +136,7 @@ def make_config(rng):
   # explicit tags only on arguments that have a value (precondition of the property)
   for n in gen.walk(root):
     if isinstance(n, gen.B) and n.btype != 'TaggedValue':
-      keys = set(n.kw) | set(range(len(n.pos)))
+      keys = set(n.kw) | {i for i, c in enumerate(n.pos) if not gen.is_gap(c)}
       n.tags = {k: v for k, v in n.tags.items()
                 if (k in keys or gen.normalize_key(n.fn, k) in keys or k in n.kw)}
       # (builtin callables: fdl.Config(dict, ...) is the idiom for an overridable dict)
